@@ -48,10 +48,11 @@ const (
 	Slice
 	Map
 	Struct
+	Any // interface{}: the document's value arrives unchanged (numbers as json.Number)
 )
 
 var kindNames = [...]string{"bool", "int8", "int16", "int32", "int64", "int", "uint8", "uint16", "uint32", "uint64", "uint",
-	"float32", "float64", "string", "duration", "ptr", "slice", "map", "struct"}
+	"float32", "float64", "string", "duration", "ptr", "slice", "map", "struct", "any"}
 
 func (k Kind) String() string { return kindNames[k] }
 
@@ -163,6 +164,7 @@ type Shape struct {
 }
 
 func L(k Kind) *Type         { return &Type{K: k} }
+func AnyT() *Type            { return &Type{K: Any} }
 func PtrTo(t *Type) *Type    { return &Type{K: Ptr, Elem: t} }
 func SliceOf(t *Type) *Type  { return &Type{K: Slice, Elem: t} }
 func MapOf(t *Type) *Type    { return &Type{K: Map, Elem: t} }
@@ -251,6 +253,8 @@ func (t *Type) RT(tagKey string) reflect.Type {
 			sf = append(sf, x)
 		}
 		rt = reflect.StructOf(sf)
+	case Any:
+		rt = reflect.TypeOf((*any)(nil)).Elem()
 	default:
 		rt = leafRT[t.K]
 	}
@@ -279,6 +283,8 @@ func (t *Type) Sig() string {
 		return "map[string]" + t.Elem.Sig()
 	case Struct:
 		return "struct"
+	case Any:
+		return "any"
 	}
 	return t.K.Class()
 }
@@ -765,6 +771,11 @@ func Equal(a, b reflect.Value) bool {
 			}
 		}
 		return true
+	case reflect.Interface:
+		if a.IsNil() || b.IsNil() {
+			return a.IsNil() == b.IsNil()
+		}
+		return freeEqual(a.Interface(), b.Interface())
 	case reflect.Float32, reflect.Float64:
 		return a.Float() == b.Float()
 	case reflect.Bool:
